@@ -59,7 +59,7 @@ def build_and_run(ctx, ncases, per_tu=40, floats=False, max_depth=4, seed_off=0)
             if err: problems.append(('run', 'tu%d' % k, err))
             for i, c in enumerate(tu):
                 il = olines[i] if olines and i < len(olines) and olines[i].startswith('wt=') else None
-                out.append({'line': c[0], 'info': c[3], 'model': parse_fields(m[k * per_tu + i]), 'impl': parse_fields(il) if il else None})
+                out.append({'line': c[0], 'info': c[3], 'model': parse_fields(m[k * per_tu + i]), 'impl': parse_fields(il) if il else None, 'src': program([(c[1], c[2])])})
         return out, problems
     finally:
         shutil.rmtree(work, ignore_errors=True)
@@ -80,7 +80,7 @@ def run_mser_property(ctx, fields, oracle, what, n_quick=640, n_thorough=8000, f
         diff = [f for f in flds if c['model'].get(f) != c['impl'].get(f)]
         if diff: mism.append((c, diff))
         v = oracle(c)
-        if v is not True: bad.append((c['line'], json.dumps(c['impl'])[:3000], str(v)))
+        if v is not True: bad.append((c['line'] + '\n// program:\n' + c['src'], json.dumps(c['impl'])[:3000], str(v)))
         if len(c['info']['kinds']) >= 2: nontriv.add(case_hash(c['line']))
     violations = report_smallest(ctx.pid, 'prop', bad, what)
     broken = []
@@ -97,3 +97,26 @@ def run_mser_property(ctx, fields, oracle, what, n_quick=640, n_thorough=8000, f
         res['broken_what'] = broken + ['%d/%d generated cases differ in %s; first: %s' % (len(mism), len(results), sorted(set(sum((d for _, d in mism), []))), c['line'][:200])]
         print('CORRESPONDENCE-BROKEN: %d cases differ; first case: %s\n  fields %s\n  model: %s\n  impl:  %s' % (len(mism), c['line'][:300], diff, str({f: c['model'].get(f) for f in diff})[:400], str({f: c['impl'].get(f) for f in diff})[:400]))
     return res
+
+
+def mser_replay(ctx, rp, fields):
+    """rebuild the single generated program kept in the replay file against the current tree and compare it with the model on the kept case line"""
+    if '\n// program:\n' not in rp.get('case', ''): return not ctx.obligations_ok
+    line, src = rp['case'].split('\n// program:\n', 1)
+    work = tempfile.mkdtemp(prefix='mserr_', dir=WORK)
+    try:
+        open(os.path.join(work, 'p.cpp'), 'w').write(src)
+        common = [os.path.join(REPO, 'include/binlog', c) for c in ('ToStringVisitor.cpp', 'PrettyPrinter.cpp', 'Time.cpp', 'detail/OstreamBuffer.cpp')]
+        r = sh(['g++', '-std=c++17', '-O0', '-g0', '-fsanitize=address,undefined', '-fno-sanitize=nonnull-attribute', '-fno-sanitize-recover=all', '-UNDEBUG', '-I' + REPO + '/include', '-I' + os.path.join(VERIF, 'harness'),
+                os.path.join(work, 'p.cpp')] + common + ['-o', os.path.join(work, 'p')])
+        if r.returncode != 0: print(r.stdout[-1500:]); return True
+        env = dict(os.environ); env['ASAN_OPTIONS'] = 'detect_leaks=0'
+        p = subprocess.run([os.path.join(work, 'p')], stdout=subprocess.PIPE, stderr=subprocess.PIPE, universal_newlines=True, timeout=120, env=env, errors='replace')
+        impl = parse_fields(p.stdout.split('\n')[0]) if p.returncode == 0 else None
+        m, _, _ = run_lines(MODELDRV, [line], 60); model = parse_fields((m or [''])[0])
+        if impl is None: print(p.stderr[-1500:]); return True
+        diff = [f for f in fields if f in impl and model.get(f) != impl.get(f)] + [f for f in ('rt', 'trunc', 'xt', 'fx') if impl.get(f) == 'bad']
+        print('fields differing from the model / failing:', diff)
+        return bool(diff) or not ctx.obligations_ok
+    finally:
+        shutil.rmtree(work, ignore_errors=True)
